@@ -138,3 +138,11 @@ Theorem no_double_close :
   sp_panic (st_pool s) = false.
 Proof. exact no_panic_l. Qed.
 Print Assumptions no_double_close.
+
+(* torn down only after quiescence: whenever any listener of any member has been closed, the
+   latch is closed and nothing is pending, queued or held -- with or without cancellation *)
+Theorem teardown_only_after_quiescence :
+  forall n np std, 1 <= n -> 1 <= np -> forall s i, reach (init n np std) s ->
+  i < n -> 0 < nth i (st_closed s) 0 -> sp_quiet (st_pool s) = true /\ quiescent s.
+Proof. exact teardown_after_quiescence_l. Qed.
+Print Assumptions teardown_only_after_quiescence.
